@@ -29,15 +29,7 @@ import (
 
 // The subcommand dispatches itself, so that main.go needs no change for it
 // (equivalent switch line for main.go: `case "c06calls": err = c06Calls(os.Args[2], os.Args[3])`).
-func init() {
-	if len(os.Args) >= 4 && os.Args[1] == "c06calls" {
-		if err := c06Calls(os.Args[2], os.Args[3]); err != nil {
-			fmt.Fprintln(os.Stderr, "extract:", err)
-			os.Exit(1)
-		}
-		os.Exit(0)
-	}
-}
+func init() { commands["c06calls"] = c06Calls }
 
 func c06Str(fset *token.FileSet, n ast.Node) string {
 	var b bytes.Buffer
